@@ -1,10 +1,26 @@
-/-  C02/Driver — placeholder: every request must return to the caller. -/
+/-  C02/Driver — every request must return to the caller; `recur` requests additionally run the
+    depth model (C18.runAct on `cap` nested calls under limit L) and say how the recursion must end. -/
 import OttoVerif.Base.Proto
+import OttoVerif.C18.Model
 namespace OttoVerif.C02.Driver
+
+/-- `recur <L> <cap> <kind>`: a recursion of at least `cap` nested scopes under limit L (`kind`
+    selects the route the cycle takes through the interpreter; the model has one way of entering a
+    scope, which is the point): RangeError iff the guard fires, caught by the script, the counter
+    bounded by L, the runtime usable afterwards. -/
+def recur (L cap : Nat) : String :=
+  match (OttoVerif.C18.runAct L (OttoVerif.C18.nest cap) [0]).2 with
+  | .rangeError => "RangeError;bounded;usable"
+  | .done => "returned;usable"
+  | .panicked => "panic"
 
 def handle (ws : List String) : String :=
   match ws with
   | [] => "bad-op"
+  | ["recur", l, cap, _kind] =>
+    (match l.toNat?, cap.toNat? with
+     | some L, some c => let r := recur L c; r ++ " " ++ r ++ " -"
+     | _, _ => "bad-op")
   | _ => "returns returns -"
 
 end OttoVerif.C02.Driver
